@@ -147,46 +147,9 @@ func c11b(c *Ctx, a *absVariant) {
 	if !litOK {
 		bad = append(bad, "no &parserError{Inner: "+errP+", pos: "+posP+", prefix: …} literal")
 	}
-	// order of prefix pieces: source order of the write calls
-	var pieces []string
-	for _, ce := range callsIn(fd.Body) {
-		if callSel(ce) != "WriteString" || len(ce.Args) != 1 {
-			continue
-		}
-		t := nospace(ce.Args[0])
-		switch {
-		case t == "p.filename":
-			pieces = append(pieces, "filename")
-		case strings.HasPrefix(t, "fmt.Sprintf("):
-			pieces = append(pieces, t)
-		case strings.Contains(t, ".displayName"):
-			pieces = append(pieces, "displayName")
-		case strings.Contains(t, ".name"):
-			pieces = append(pieces, "name")
-		}
-	}
-	wantPos := `fmt.Sprintf("%d:%d(%d)",` + posP + ".line," + posP + ".col," + posP + ".offset)"
-	if !(len(pieces) == 4 && pieces[0] == "filename" && pieces[1] == wantPos && pieces[2] == "displayName" && pieces[3] == "name") {
-		bad = append(bad, "prefix pieces in source order: ["+strings.Join(pieces, " | ")+"], expected filename, "+wantPos+", displayName, name")
-	}
-	// rule taken from the top of rstack; displayName preferred when non-empty
-	topOK, prefOK := false, false
-	ast.Inspect(fd.Body, func(n ast.Node) bool {
-		switch x := n.(type) {
-		case *ast.AssignStmt:
-			if nospace(x.Rhs[0]) == "p.rstack[len(p.rstack)-1]" {
-				topOK = true
-			}
-		case *ast.IfStmt:
-			if strings.HasSuffix(nospace(x.Cond), `.displayName!=""`) && x.Else != nil {
-				prefOK = true
-			}
-		}
-		return true
-	})
-	if !topOK || !prefOK {
-		bad = append(bad, fmt.Sprintf("rule from top of rstack=%t, displayName preferred when non-empty=%t", topOK, prefOK))
-	}
+	// the prefix, as the concatenation of what is written into the buffer on each feasible path:
+	// [filename ":"]  line:col (offset)  [": " "rule " displayName-or-name]
+	bad = append(bad, prefixSemantics(c, v, fd, posP)...)
 	sort.Strings(bad)
 	r.Check(len(bad) == 0, "C11-b", "T.addErrAt:typed-positioned", vn, v.Where(fd.Pos()), "&parserError{Inner, pos, prefix(file, line:col (offset), rule)}", strings.Join(bad, "; "))
 	// the message of an entry is prefix + ": " + the original error's message; the list's message joins its entries in order
@@ -299,26 +262,33 @@ func c11cde(c *Ctx, v *variants.Variant) {
 	r.Check(len(bad) == 0 && nret >= 3, "C11-c", "T.parse:returns-the-list", vn, v.Where(fd.Pos()), fmt.Sprintf("%d returns, all p.errs.err()", nret), strings.Join(bad, "; "))
 	if ef := v.Func("errList", "err"); ef != nil {
 		recv := ef.Recv.List[0].Names[0].Name
-		shape := []string{}
-		for _, st := range ef.Body.List {
-			switch x := st.(type) {
-			case *ast.IfStmt:
-				if nospace(x.Cond) == "len("+recv+")==0" && len(x.Body.List) == 1 {
-					if rs, ok := x.Body.List[0].(*ast.ReturnStmt); ok && nospace(rs.Results[0]) == "nil" {
-						shape = append(shape, "empty->nil")
-					}
+		var badE []string
+		nNil, nList := 0, 0
+		for _, p := range c.vnorm(v).without("dedupe").normPaths(ef) {
+			rt := lastReturn(p)
+			switch {
+			case p.holds("len(" + recv + ")==0"):
+				nNil++
+				if rt != "nil" {
+					badE = append(badE, "an empty list yields "+rt+", not nil (a successful parse would return a non-nil error)")
 				}
-			case *ast.ExprStmt:
-				if ce, ok := x.X.(*ast.CallExpr); ok && nospace(ce.Fun) == recv+".dedupe" {
-					shape = append(shape, "dedupe")
+			case p.holds("len(" + recv + ")>0"):
+				nList++
+				iD := p.evIndex("call", 0, func(t string) bool { return t == recv+".dedupe()" })
+				if iD < 0 {
+					badE = append(badE, "a non-empty list is returned without de-duplication")
 				}
-			case *ast.ReturnStmt:
-				if nospace(x.Results[0]) == recv {
-					shape = append(shape, "return-list")
+				if rt != recv {
+					badE = append(badE, "a non-empty list yields "+rt+", not the list itself")
 				}
+			default:
+				badE = append(badE, "a path does not test whether the list is empty")
 			}
 		}
-		r.Check(strings.Join(shape, ",") == "empty->nil,dedupe,return-list", "C11-c", "T.errList.err:shape", vn, v.Where(ef.Pos()), "nil iff empty; dedupe; the list itself", "shape is ["+strings.Join(shape, ",")+"]")
+		if nNil == 0 || nList == 0 {
+			badE = append(badE, "expected both an empty-list path and a non-empty one")
+		}
+		r.Check(len(badE) == 0, "C11-c", "T.errList.err:shape", vn, v.Where(ef.Pos()), "nil iff empty; dedupe; the list itself", strings.Join(uniq(badE), "; "))
 	} else {
 		r.Fatal("variant %s: errList.err missing", vn)
 	}
@@ -391,9 +361,10 @@ func c11cde(c *Ctx, v *variants.Variant) {
 						}
 						return true
 					})
-					okBody = strings.Contains(txt, "recover;") && strings.Contains(txt, "val=nil;") && strings.Contains(txt, "addErr(e);") && strings.Contains(txt, `addErr(fmt.Errorf("%v",e));`) && strings.Contains(txt, "err=p.errs.err();")
+					var whyH string
+					okBody, whyH = recoverHandlerSemantics(c, v, fd, fl)
 					if !okBody {
-						guard += " handler=[" + txt + "]"
+						guard += " handler: " + whyH + " [" + txt + "]"
 					}
 				}
 			}
@@ -474,4 +445,164 @@ func errAlwaysRecorded(c *Ctx, v *variants.Variant, rule string) {
 		sort.Strings(bad)
 		r.Check(len(bad) == 0, rule, "T."+spec.fn+":records-every-error", v.Name, v.Where(fd.Pos()), fmt.Sprintf("%d paths, each hands the error on exactly once", len(paths)), strings.Join(uniq(bad), "; ")+": an error returned by a code block, an invalid-encoding error or the MaxExpressions error can be lost")
 	}
+}
+
+// recoverHandlerSemantics: on every path of the deferred handler on which recover() returned a value, the result value
+// is set to nil, the panic value is recorded (itself when it is an error, formatted with %v otherwise) and the error
+// result becomes the list; on the other paths nothing happens.
+func recoverHandlerSemantics(c *Ctx, v *variants.Variant, fd *ast.FuncDecl, fl *ast.FuncLit) (bool, string) {
+	if fd.Type.Results == nil || len(fd.Type.Results.List) != 2 || len(fd.Type.Results.List[0].Names) != 1 || len(fd.Type.Results.List[1].Names) != 1 {
+		return false, "parse has no named results"
+	}
+	paths, multi := c.vnorm(v).without("addErr", "addErrAt").normBlockNamed(fd, fl.Body.List)
+	valV, errV := multi[fd.Type.Results.List[0].Names[0].Name], multi[fd.Type.Results.List[1].Names[0].Name]
+	if valV == "" || errV == "" || len(paths) == 0 {
+		return false, "result variables not found"
+	}
+	nRec := 0
+	for _, p := range paths {
+		if p.holds("recover()==nil") {
+			for _, e := range p {
+				if e.Kind == "set" || e.Kind == "call" && !strings.HasPrefix(e.Text, "recover(") {
+					return false, "the handler acts although nothing was recovered"
+				}
+			}
+			continue
+		}
+		if !p.holds("recover()!=nil") {
+			return false, "a path of the handler does not test recover()"
+		}
+		nRec++
+		isErr := p.holds("ok(recover().(error))")
+		for _, e := range p {
+			if e.Kind == "tcase" && strings.HasSuffix(e.Text, ":error") {
+				isErr = true
+			}
+		}
+		var recs []string
+		for _, e := range p {
+			if e.Kind == "call" && strings.HasPrefix(e.Text, "p.addErr(") {
+				recs = append(recs, stripAsserts(strings.TrimSuffix(strings.TrimPrefix(e.Text, "p.addErr("), ")")))
+			}
+		}
+		want := `fmt.Errorf("%v",recover())`
+		if isErr {
+			want = "recover()"
+		}
+		if len(recs) != 1 || recs[0] != want {
+			return false, fmt.Sprintf("the panic value is recorded as %v, expected %s", recs, want)
+		}
+		if v, i := lastSet(p, valV); i < 0 || v != "nil" {
+			return false, "the result value is not set to nil"
+		}
+		if v, i := lastSet(p, errV); i < 0 || v != "p.errs.err()" {
+			return false, "the error result is not the error list"
+		}
+		// the list is read after the panic value was added
+		iAdd := p.evIndex("call", 0, func(s string) bool { return strings.HasPrefix(s, "p.addErr(") })
+		_, iErr := lastSet(p, errV)
+		if iErr < iAdd {
+			return false, "the error list is taken before the panic value is added"
+		}
+	}
+	if nRec == 0 {
+		return false, "no path handles a recovered value"
+	}
+	return true, ""
+}
+
+// prefixSemantics decides what addErrAt writes into the prefix buffer on every feasible path.
+func prefixSemantics(c *Ctx, v *variants.Variant, fd *ast.FuncDecl, posP string) []string {
+	paths, multi := c.vnorm(v).normPathsNamed(fd)
+	var bad []string
+	// the buffer: the numbered local whose String() becomes the prefix
+	buf := ""
+	for _, p := range paths {
+		for _, e := range p {
+			if i := strings.Index(e.Text, "prefix:"); i >= 0 && strings.Contains(e.Text[i:], ".String()") {
+				t := e.Text[i+len("prefix:"):]
+				buf = t[:strings.Index(t, ".String()")]
+			}
+		}
+	}
+	_ = multi
+	if buf == "" {
+		return []string{"the prefix of the error is not the content of a buffer built in addErrAt"}
+	}
+	rule := "p.rstack[len(p.rstack)-1]"
+	posText := `fmt.Sprintf("%d:%d (%d)",` + posP + ".line," + posP + ".col," + posP + ".offset)"
+	tokens := func(pieces []string) []string {
+		var out []string
+		for _, pc := range pieces {
+			for _, t := range splitTop(pc, "+") {
+				out = append(out, t)
+			}
+		}
+		return out
+	}
+	nFeasible := 0
+	for _, p := range paths {
+		var pieces []string
+		feasible := true
+		nonEmpty := func() (known bool, ne bool) {
+			for _, pc := range pieces {
+				for _, t := range splitTop(pc, "+") {
+					if strings.HasPrefix(t, `"`) && len(t) > 2 || strings.HasPrefix(t, "fmt.Sprintf(") {
+						return true, true
+					}
+					if p.holds(t + `!=""`) {
+						return true, true
+					}
+				}
+			}
+			if len(pieces) == 0 {
+				return true, false
+			}
+			return false, false
+		}
+		for _, e := range p {
+			switch {
+			case (e.Kind == "call" || e.Kind == "ccall") && strings.HasPrefix(e.Text, buf+".WriteString("):
+				pieces = append(pieces, strings.TrimSuffix(strings.TrimPrefix(e.Text, buf+".WriteString("), ")"))
+			case e.Kind == "+" && (e.Text == buf+".Len()>0" || e.Text == buf+".Len()==0" || e.Text == buf+".Len()<=0"):
+				if known, ne := nonEmpty(); known && ne != (e.Text == buf+".Len()>0") {
+					feasible = false
+				}
+			}
+		}
+		if !feasible {
+			continue
+		}
+		nFeasible++
+		var want []string
+		if p.holds(`p.filename!=""`) {
+			want = append(want, "p.filename", `":"`)
+		} else if !p.holds(`p.filename==""`) {
+			bad = append(bad, "a path does not test whether a file name was given")
+		}
+		want = append(want, posText)
+		switch {
+		case p.holds("len(p.rstack)>0"):
+			name := rule + ".name"
+			switch {
+			case p.holds(rule + `.displayName!=""`):
+				name = rule + ".displayName"
+			case p.holds(rule + `.displayName==""`):
+			default:
+				bad = append(bad, "the rule's display name is not preferred when it is non-empty")
+			}
+			want = append(want, `": "`, `"rule "`, name)
+		case p.holds("len(p.rstack)==0"):
+		default:
+			bad = append(bad, "a path does not test whether a rule is being evaluated")
+		}
+		got := tokens(pieces)
+		if strings.Join(got, " ") != strings.Join(want, " ") {
+			bad = append(bad, "the prefix is ["+strings.Join(got, " ")+"] on the path ["+strings.Join(p.facts(), " ")+"], expected ["+strings.Join(want, " ")+"]")
+		}
+	}
+	if nFeasible == 0 {
+		bad = append(bad, "no feasible path builds a prefix")
+	}
+	return uniq(bad)
 }
